@@ -22,6 +22,7 @@ KF_CONST_STR = "py-const-string-result-with-defaults"
 KF_LUA_CHARP = "lua-char-pointer-argument"
 KF_C_VECTOR = "c-only-vector-argument"
 KF_PYVECSTR = "python-vector-of-strings-argument"
+KF_LUA_CPPIF = "lua-ignores-cpp-if"
 FINDING_LIBS = [
     # (key, library, header name, header text, options, file expected not to compile)
     (KF_LUA_CHARP, {"library": "fl1", "cxx_header": "fl1.hpp", "declarations": [{"decl": "int cstr(const char *t)"}]},
@@ -32,6 +33,10 @@ FINDING_LIBS = [
     (KF_C_VECTOR, {"library": "fl3", "cxx_header": "fl3.hpp", "declarations": [{"decl": "void ids(std::vector<int> &v +intent(out))"}]},
      "fl3.hpp", "#pragma once\n#include <vector>\nvoid ids(std::vector<int> &v);\n",
      dict(wrap_c=True, wrap_fortran=False, wrap_python=False, wrap_lua=False), "wrapfl3.cpp"),
+    (KF_LUA_CPPIF, {"library": "fl4", "cxx_header": "fl4.hpp",
+                    "declarations": [{"decl": "void upd()"}, {"decl": "void upd(int flag)", "cpp_if": "ifdef USE_FLAG"}]},
+     "fl4.hpp", "#pragma once\nvoid upd();\n#ifdef USE_FLAG\nvoid upd(int flag);\n#endif\n",
+     dict(wrap_c=False, wrap_fortran=False, wrap_python=False, wrap_lua=True), "luafl4module.cpp"),
 ]
 
 GEN = {
@@ -307,6 +312,16 @@ def run(ctx):
             for (nm, decl, proto, inc) in LONELY
             for i, o in enumerate([dict(), dict(F_CFI=True), dict(wrap_python=True, PY_array_arg="list")] if not quick
                                   else [dict(), dict(wrap_python=True, PY_array_arg="list")])]
+
+    # an overload set whose LATER member is under a preprocessor guard (the documented cpp_if pattern): compiles without the macro
+    guard_lib = {"library": "grd", "cxx_header": "grd.hpp", "options": {"wrap_lua": False, "wrap_python": True},
+                 "declarations": [{"decl": "class Widget", "declarations": [{"decl": "Widget()"}, {"decl": "void update()"},
+                                                                            {"decl": "void update(int flag)", "cpp_if": "ifdef USE_FLAG"}]},
+                                  {"decl": "void work(int comm)", "format": {"function_suffix": "_par"}, "cpp_if": "ifdef HAVE_PAR"},
+                                  {"decl": "void work()", "format": {"function_suffix": "_ser"}, "cpp_if": "ifndef HAVE_PAR"}]}
+    guard_hpp = ("#pragma once\nclass Widget { public: Widget(); void update();\n#ifdef USE_FLAG\n  void update(int flag);\n#endif\n};\n"
+                 "#ifdef HAVE_PAR\nvoid work(int comm);\n#else\nvoid work();\n#endif\n")
+    jobs += [("guard_%d" % i, guard_lib, "grd.hpp", guard_hpp, o) for i, o in enumerate([dict(), dict(debug=True)])]
 
     def two(j):
         return j, build_and_compile(ctx, *j)
